@@ -46,7 +46,8 @@ OPTSETS = {"quick": [["-greedy"], ["-greedy", "-storage"], ["-greedy", "-partiti
 REPLAY_ACTIONS = ["ReplayFromLog", "ReplayBlockOK", "ReplayReject", "ReplayFinish"]
 MODEL_REPLAY_ACTIONS = ["aReplayFromLog", "aReplayBlockOK", "aReplayReject", "aReplayFinish"]
 
-BODIES = ["PUSH 20 PUSH 0 MSTORE8 PUSH 0 ADD PUSH 1 PUSH 2 SSTORE", "PUSH 80 PUSH 40 MSTORE PUSH 0 ADD", "CALLER PUSH 1 SSTORE PUSH 1 MUL",
+BODIES = ["DUP1 MUL SWAP1 POP PUSH 0 ADD", "DUP2 DUP1 ADD PUSH 0 ADD SWAP2 POP POP",   # a commutative operation on one value taken twice
+          "PUSH 20 PUSH 0 MSTORE8 PUSH 0 ADD PUSH 1 PUSH 2 SSTORE", "PUSH 80 PUSH 40 MSTORE PUSH 0 ADD", "CALLER PUSH 1 SSTORE PUSH 1 MUL",
           "PUSH 0 ADD PUSH 1 MUL", "DUP1 PUSH 0 MSTORE PUSH 1 PUSH 2 ADD SWAP1 SSTORE", "SWAP1 SWAP1 DUP2 DUP2 ADD SWAP1 POP PUSH 0 ADD",
           "PUSH 3 PUSH 4 ADD POP CALLER POP", "DUP2 DUP2 ADD PUSH 0 MSTORE PUSH 1 PUSH 0 ADD PUSH 20 MSTORE POP",
           "CALLER PUSH 0 SSTORE PUSH 1 PUSH 1 SSTORE", "PUSH 1 SWAP1 POP PUSH 0 SLOAD ADD", "ISZERO ISZERO ISZERO",
